@@ -332,6 +332,18 @@ func robustOne(rc *RunCtx) *Violation {
 			rc.probe("error position inside a multi-byte rune")
 		}
 	}
+	// an error value belongs to the call that returned it: it reads the same after the parser has
+	// been used again (same input under another file name, so the later call fails at the very
+	// same grammar element)
+	if firstRes.Err != nil && plan == nil && simrt.Choose(3) == 1 {
+		before := errDesc(firstRes.Err)
+		later := "later-" + filename
+		m := measure(rc, d, func() (interface{}, error) { return p.ParseString(later, d, popts...) })
+		if after := errDesc(firstRes.Err); after != before && !m.capHit {
+			return viol("error-changes-after-later-call", fmt.Sprintf("the error a call returned read %s; after one more ParseString(%q, same input) on the same parser the same error value reads %s", before, later, after))
+		}
+		rc.probe("returned error re-read after a later call on the same parser")
+	}
 	sort.Strings(fired)
 	invalidDoc := !dc.valid
 	rc.nontriv = (len(fired) > 0 || invalidDoc || plan != nil) && len(toks) != 1 && feature != "at-first-token" && (outcome != "ast" || len(toks) > 2)
